@@ -179,6 +179,129 @@ theorem guards_err_iff (i : Input) (hden : 0 < i.fDen) :
             split <;> (try split) <;> (try split) <;> simp [hgt, hg]
     · simp [h0, h1]
 
+/-- how the code reduces a fraction: (x / gcd) / (y / gcd) is x / y -/
+theorem reduced_ratio (x y : ℕ) (hy : 0 < y) :
+    ((x / Nat.gcd x y : ℕ) : ℝ) / ((y / Nat.gcd x y : ℕ) : ℝ) = (x : ℝ) / y ∧ 0 < y / Nat.gcd x y := by
+  have hg : 0 < Nat.gcd x y := Nat.gcd_pos_of_pos_right x hy
+  have hx := Nat.div_mul_cancel (Nat.gcd_dvd_left x y)
+  have hyy := Nat.div_mul_cancel (Nat.gcd_dvd_right x y)
+  have hpos : 0 < y / Nat.gcd x y := Nat.div_pos (Nat.le_of_dvd hy (Nat.gcd_dvd_right x y)) hg
+  refine ⟨?_, hpos⟩
+  have hgR : (0:ℝ) < (Nat.gcd x y : ℝ) := by exact_mod_cast hg
+  have hmR : (0:ℝ) < ((y / Nat.gcd x y : ℕ) : ℝ) := by exact_mod_cast hpos
+  have hyR : (0:ℝ) < (y : ℝ) := by exact_mod_cast hy
+  have e1 : (x : ℝ) = ((x / Nat.gcd x y : ℕ) : ℝ) * (Nat.gcd x y : ℝ) := by exact_mod_cast hx.symm
+  have e2 : (y : ℝ) = ((y / Nat.gcd x y : ℕ) : ℝ) * (Nat.gcd x y : ℝ) := by exact_mod_cast hyy.symm
+  rw [div_eq_div_iff hmR.ne' hyR.ne']
+  nlinarith [e1, e2]
+
+/-- σ after the cap, as the code computes it -/
+theorem capped_ratio (pool total : ℕ) (ht : 0 < total) :
+    (((if pool > total then total else pool : ℕ) : ℝ) / total) = min ((pool : ℝ) / total) 1 := by
+  have htR : (0:ℝ) < total := by exact_mod_cast ht
+  by_cases h : pool > total
+  · simp only [h, ↓reduceIte]
+    have : (1:ℝ) ≤ (pool:ℝ) / total := by
+      rw [le_div_iff₀ htR]; have : (total:ℝ) ≤ pool := by exact_mod_cast h.le
+      linarith
+    rw [min_eq_right this, div_self htR.ne']
+  · simp only [h, ↓reduceIte]
+    have : (pool:ℝ) / total ≤ 1 := by
+      rw [div_le_one htR]; exact_mod_cast Nat.le_of_not_gt h
+    rw [min_eq_left this]
+
+/-- **The guard ladder against the formula, value case**: on the domain of the
+    statement (known mode, coefficient present with 0 ≤ f, total stake > 0) every
+    value the ladder returns directly is the Praos formula. -/
+theorem guards_val_sound (i : Input) (U t : ℕ) (hU : upperBound i.mode = some U)
+    (hden : 0 < i.fDen) (hnil : i.fNil = false) (hf0 : 0 ≤ i.fNum) (ht : 0 < i.total)
+    (h : guards i = .val t) : (t : ℤ) = Tspec U (sigmaR i) (fR i) := by
+  have hdR : (0:ℝ) < i.fDen := by exact_mod_cast hden
+  have htR : (0:ℝ) < i.total := by exact_mod_cast ht
+  simp only [guards, hU, hnil, Bool.false_eq_true, ↓reduceIte] at h
+  by_cases h1 : i.fNum ≤ 0
+  · simp only [h1, ↓reduceIte, Out.val.injEq] at h
+    have : i.fNum = 0 := by omega
+    have : fR i = 0 := by simp [fR, this]
+    rw [this, spec_f_zero, ← h]; rfl
+  · simp only [h1, ↓reduceIte] at h
+    by_cases h2 : i.fNum > (i.fDen : ℤ)
+    · simp [h2] at h
+    · simp only [h2, ↓reduceIte, Nat.ne_of_gt ht] at h
+      by_cases h3 : i.pool = 0
+      · simp only [h3, ↓reduceIte, Out.val.injEq] at h
+        have : sigmaR i = 0 := by
+          simp only [sigmaR, h3, Nat.cast_zero, zero_div]; exact min_eq_left (by norm_num)
+        rw [this, spec_sigma_zero, ← h]; rfl
+      · simp only [h3, ↓reduceIte] at h
+        by_cases h4 : i.fNum = (i.fDen : ℤ)
+        · simp only [h4, ↓reduceIte, Out.val.injEq] at h
+          have hf : fR i = 1 := by
+            unfold fR; rw [h4]; push_cast; exact div_self hdR.ne'
+          have hs : 0 < sigmaR i := by
+            unfold sigmaR
+            have hp : (0:ℝ) < i.pool := by exact_mod_cast Nat.pos_of_ne_zero h3
+            exact lt_min (div_pos hp htR) one_pos
+          rw [hf, spec_f_one U _ hs, ← h]
+        · simp [h4] at h
+
+/-- **…general case**: what is handed to the exact path / ln-exp pipeline is
+    exactly 1 − f = a/b and σ = n/m (capped), with b, m > 0. -/
+theorem guards_general_sound (i : Input) (a b n m U : ℕ)
+    (hden : 0 < i.fDen) (h : guards i = .general a b n m U) :
+    upperBound i.mode = some U ∧ 0 < b ∧ 0 < m ∧
+      (a : ℝ) / b = 1 - fR i ∧ (n : ℝ) / m = sigmaR i := by
+  have hdR : (0:ℝ) < i.fDen := by exact_mod_cast hden
+  unfold guards at h
+  split at h
+  · cases h
+  · rename_i U' hU'
+    by_cases c0 : i.fNil = true
+    · simp [c0] at h
+    · simp only [c0, Bool.false_eq_true, ↓reduceIte] at h
+      by_cases c1 : i.fNum ≤ 0
+      · simp [c1] at h
+      · simp only [c1, ↓reduceIte] at h
+        by_cases c2 : i.fNum > (i.fDen : ℤ)
+        · simp [c2] at h
+        · simp only [c2, ↓reduceIte] at h
+          by_cases c3 : i.total = 0
+          · simp [c3] at h
+          · simp only [c3, ↓reduceIte] at h
+            by_cases c4 : i.pool = 0
+            · simp [c4] at h
+            · simp only [c4, ↓reduceIte] at h
+              by_cases c5 : i.fNum = (i.fDen : ℤ)
+              · simp [c5] at h
+              · simp only [c5, ↓reduceIte, Out.general.injEq] at h
+                obtain ⟨ha, hb, hn, hm, hUU⟩ := h
+                have ht : 0 < i.total := Nat.pos_of_ne_zero c3
+                have r1 := reduced_ratio (i.fDen - i.fNum.toNat) i.fDen hden
+                have r2 := reduced_ratio (if i.pool > i.total then i.total else i.pool) i.total ht
+                rw [ha, hb] at r1
+                rw [hn, hm] at r2
+                refine ⟨by rw [hU', hUU], r1.2, r2.2, ?_, ?_⟩
+                · rw [r1.1]
+                  have hle : i.fNum.toNat ≤ i.fDen := by omega
+                  rw [Nat.cast_sub hle]
+                  have : ((i.fNum.toNat : ℕ) : ℝ) = (i.fNum : ℝ) := by
+                    have := Int.toNat_of_nonneg (by omega : 0 ≤ i.fNum)
+                    exact_mod_cast this
+                  rw [this]; unfold fR; field_simp
+                · rw [r2.1, capped_ratio i.pool i.total ht]; rfl
+
+/-- **End to end**: an output `T` that passes the certificate for the general case
+    handed over by the guard ladder is the Praos formula at the caller's f and σ. -/
+theorem certified_output_correct (i : Input) (a b n m U T : ℕ) (hden : 0 < i.fDen)
+    (hg : guards i = .general a b n m U) (hc : certOK a b n m U T = true) :
+    (T : ℤ) = Tspec U (sigmaR i) (fR i) := by
+  obtain ⟨_, hb, hm, e1, e2⟩ := guards_general_sound i a b n m U hden hg
+  have := certOK_sound a b n m U T hb hm hc
+  rw [e2] at this
+  have e3 : (1:ℝ) - (a:ℝ) / b = fR i := by rw [e1]; ring
+  rw [e3] at this
+  exact this
+
 /-! ### eligibility -/
 
 /-- **a VRF leader value makes a pool eligible exactly when it is below the threshold** -/
